@@ -210,6 +210,9 @@ def compound_spec(rng, depth, leaf, include=None):
     if depth <= 0 or rng.random() < 0.25:
         return leaf()
     op = rng.choice(['and', 'or', 'xor'])
+    if rng.random() < 0.2:
+        # the same set operation given as another callable (NumPy logical/bitwise function, plain Python function)
+        op = rng.choice({'and': ['np_and', 'bit_and', 'fn_and'], 'or': ['np_or', 'bit_or', 'fn_or'], 'xor': ['np_xor', 'bit_xor']}[op])
     r1 = compound_spec(rng, depth - 1, leaf)
     r2 = compound_spec(rng, depth - 1, leaf)
     d = S.reg('CompoundPixelRegion', region1=r1, region2=r2, operator=op)
